@@ -288,6 +288,32 @@ func (r *run) checkQuiescent(when string, now time.Time, afterTick bool) {
 		}
 	}
 	dump, pos, neg := r.ccp.VerifDump()
+	// every entry expires one TTL (negative TTL if the latest answer for it was "nothing" or an error) after that
+	// answer was handled; the cache handles an answer within the 20ms the harness lets pass after the provider call
+	type ans struct {
+		at   time.Time
+		good bool
+	}
+	latest := map[gostatsd.Source]ans{}
+	for _, c := range r.calls {
+		for i, s := range c.ips {
+			latest[s] = ans{c.at, c.outcome == 0 || (c.outcome == 2 && i == 0)}
+		}
+	}
+	for s, e := range dump {
+		l, ok := latest[s]
+		if !ok {
+			continue
+		}
+		want := negTTL
+		if l.good {
+			want = ttl
+		}
+		lo := l.at.Add(want).UnixNano()
+		if e.Expires < lo || e.Expires > lo+int64(20*time.Millisecond) {
+			r.fail("wrong-expiry", fmt.Sprintf("%s: entry %s was last answered at %v (instance: %v) and expires %v later; the configured TTL for that kind of answer is %v", when, s, l.at.Sub(fx.Epoch), l.good, time.Duration(e.Expires-l.at.UnixNano()), want))
+		}
+	}
 	p, n := 0, 0
 	for s, e := range dump {
 		if e.Instance != nil {
